@@ -29,6 +29,7 @@ import (
 	d "verifharness/lib/dertree"
 	"verifharness/lib/inputs"
 	"verifharness/lib/obs"
+	"verifharness/lib/pki"
 )
 
 // Outcome of one decode in one mode.
@@ -215,6 +216,22 @@ var structTargets = []structTarget{
 			EmailAddress: []string{"a@example.com"}, SerialNumber: "0042"}.ToRDNSequence()
 	}, dec[pkix.RDNSequence]()},
 	{"validity", func() any { return validity{t0, t0.AddDate(40, 0, 0)} }, dec[validity]()},
+	// UTCTime two-digit years on both sides of the 1950-2049 window and of Go's own 1969-2068 pivot
+	{"validity-1950-1968", func() any {
+		return validity{time.Date(1950, 1, 1, 0, 0, 0, 0, time.UTC), time.Date(1968, 12, 31, 23, 59, 59, 0, time.UTC)}
+	}, dec[validity]()},
+	{"validity-1969-2049", func() any {
+		return validity{time.Date(1969, 1, 1, 0, 0, 0, 0, time.UTC), time.Date(2049, 12, 31, 23, 59, 59, 0, time.UTC)}
+	}, dec[validity]()},
+	{"validity-1951-2050", func() any {
+		return validity{time.Date(1951, 6, 15, 12, 0, 1, 0, time.FixedZone("", 3600)), time.Date(2050, 1, 1, 0, 0, 0, 0, time.UTC)}
+	}, dec[validity]()},
+	{"pkix.TBSCertificateList-1955", func() any {
+		return pkix.TBSCertificateList{Version: 1, Signature: pkix.AlgorithmIdentifier{Algorithm: asn1.ObjectIdentifier{1, 3, 101, 112}},
+			Issuer: pkix.Name{CommonName: "CA"}.ToRDNSequence(), ThisUpdate: time.Date(1955, 5, 5, 5, 5, 5, 0, time.UTC),
+			NextUpdate:          time.Date(1968, 2, 29, 0, 0, 0, 0, time.UTC),
+			RevokedCertificates: []pkix.RevokedCertificate{{SerialNumber: big.NewInt(7), RevocationTime: time.Date(1950, 1, 1, 0, 0, 0, 0, time.UTC)}}}
+	}, dec[pkix.TBSCertificateList]()},
 	{"mixed", func() any {
 		return mixed{Version: 2, Serial: big.NewInt(-129), Name: "host@example", Flag: true,
 			Bits: asn1.BitString{Bytes: []byte{0xa0}, BitLength: 3}, Blob: []byte{1, 2, 3}, When: t0}
@@ -404,6 +421,22 @@ func certSeeds() []*inputs.Seed {
 	seeds := s.ByKind["cert"]
 	if len(seeds) == 0 {
 		obs.Fatal("no certificate seeds")
+	}
+	// validity periods whose UTCTime years need the 1950-2049 window (and a GeneralizedTime end)
+	at := func(y, mo, d, h, mi, sec int) int {
+		return int(time.Date(y, time.Month(mo), d, h, mi, sec, 0, time.UTC).Sub(pki.T0) / time.Second)
+	}
+	for _, w := range []struct {
+		name   string
+		nb, na int
+	}{
+		{"validity-1950-1968", at(1950, 1, 1, 0, 0, 0), at(1968, 12, 31, 23, 59, 59)},
+		{"validity-1955-2049", at(1955, 5, 5, 5, 5, 5), at(2049, 12, 31, 23, 59, 59)},
+		{"validity-1968-2050", at(1968, 2, 29, 12, 0, 0), at(2050, 1, 1, 0, 0, 0)},
+	} {
+		c := pki.Cert{ID: "c20" + w.name, Subj: "C20" + w.name, Key: "K7", Iss: "C20" + w.name, SKey: "K7", CA: true, BC: true,
+			PathLen: -1, NB: w.nb, NA: w.na, SKID: "K7"}
+		seeds = append(seeds, &inputs.Seed{Name: w.name, Kind: "cert", Class: "gen", Data: pki.MustBuild(c)})
 	}
 	return seeds
 }
